@@ -7,6 +7,8 @@
     between runs fails this frame obligation."""
 import ast
 import os
+
+import z3
 import types
 from pathlib import Path
 
@@ -28,7 +30,12 @@ class geophires_main(Contract):
     def apply_at_call(self, ex, st, args, kwargs, node):
         st.heap[("glob", "cwd")] = Opaque("cwd@inside-geophires")      # os.chdir(dirname(__file__)), not restored
         st.effects.append(("cwd", "write"))
-        return super().apply_at_call(ex, st, args, kwargs, node)
+        outs = super().apply_at_call(ex, st, args, kwargs, node)
+        for o in outs:
+            # ghost: did the simulation complete?  (an exception or an exit - with whatever status - is a failed run:
+            # main() ends by returning, never by sys.exit, when the report has been written)
+            o.state.heap[("glob", "main_failed")] = z3.BoolVal(o.kind != "return")   # a term, so that merges keep it
+        return outs
 
 
 @contract
@@ -85,7 +92,10 @@ class get_geophires_result(Contract):
     def ensures(self, s, r):
         cwd_ok, argv_ok = self._frame(s)
         return {"working_directory_restored_on_normal_exit": V(cwd_ok),
-                "argument_vector_restored_on_normal_exit": V(argv_ok)}
+                "argument_vector_restored_on_normal_exit": V(argv_ok),
+                # a result is handed out only from the cache or after a run that completed (never after main()
+                # raised or exited: the output file would be missing or left over from an earlier request)
+                "result_returned_only_after_a_completed_run": Not(V(s._st.heap.get(("glob", "main_failed"), z3.BoolVal(False))))}
 
     def ensures_on_raise(self, s, exc):
         cwd_ok, argv_ok = self._frame(s)
@@ -130,7 +140,19 @@ def _audit():
                             imported.add((a.asname or a.name).split(".")[0])
                     elif isinstance(n, ast.ImportFrom):
                         for a in n.names:
-                            imported.add(a.asname or a.name)
+                            if a.name == "*":
+                                # star import: the names the module exports (mpmath's `mp` context, numpy, ...)
+                                try:
+                                    import importlib
+                                    modname = ("." * n.level) + (n.module or "")
+                                    mod = importlib.import_module(modname, package=rel[:-3].replace(os.sep, ".").rsplit(".", 1)[0]
+                                                                  if n.level else None)
+                                    names = getattr(mod, "__all__", None) or [x for x in dir(mod) if not x.startswith("_")]
+                                    imported.update(names)
+                                except Exception:
+                                    imported.add("*unresolved:" + (n.module or ""))
+                            else:
+                                imported.add(a.asname or a.name)
 
                 def visit(node, scope):
                     for child in ast.iter_child_nodes(node):
